@@ -713,8 +713,10 @@ def render_item(repo_root, d, log, cache):
             m = re.match(r'const\s+(\w+)\s*:\s*(.*?)\s*=\s*(.*);\s*$', text, re.S)
             if not m:
                 raise LostAnchor(f'{what}: cannot parse const item')
-            text = ('pub exec const %s: %s\n    ensures\n%s\n{ %s }' %
-                    (m.group(1), m.group(2), d.ensures.rstrip(), m.group(3)))
+            # a `before `` ` section (empty anchor) of a const item is a proof block placed in front of the defining expression
+            hint = ''.join(txt.rstrip() + '\n' for (w_, pat_, txt) in d.inserts if w_ == 'before' and pat_ == '')
+            text = ('pub exec const %s: %s\n    ensures\n%s\n{ %s%s }' %
+                    (m.group(1), m.group(2), d.ensures.rstrip(), hint, m.group(3)))
         else:
             text = publicize(text, it.kind)
         if d.traits:
